@@ -8,6 +8,7 @@ import (
 func init() {
 	vRegister("H_C06_Schedule", H_C06_Schedule)
 	vRegister("H_C06_StateLevel", H_C06_StateLevel)
+	vRegister("H_C06_Hearsay", H_C06_Hearsay)
 }
 
 // documented Lifeguard schedule: max - log(n+1)/log(k+1)*(max-min), millisecond floor, never below min
@@ -175,4 +176,44 @@ func H_C06_StateLevel() {
 		}
 		vCover("c06.state.override")
 	}
+}
+
+// C06: push/pull hearsay about a member we already suspect on our own evidence is not an independent confirmation
+// (it is attributed to the local node, the original accuser); a genuinely new confirmer counts exactly once.
+func H_C06_Hearsay() {
+	conf := vBaseConfig()
+	conf.SuspicionMult = 4 + vPick(2)
+	f := vNewML(conf)
+	m := f.m
+	f.vAddSelf(1, nil)
+	a := f.vAddConcreteAlive(vPeerA, 2)
+	a.Incarnation = vU32()
+	vAssume(a.Incarnation < 0xFFFFFFF0)
+	f.vAddConcreteAlive(vPeerB, 3)
+	m.numNodes.Store(uint32(10)) // enough peers for confirmations to be expected (k >= 2)
+	m.suspectNode(&suspect{Incarnation: a.Incarnation, Node: vPeerA, From: vSelf})
+	t := m.nodeTimers[vPeerA]
+	vAssert(t != nil && t.k >= 2, "c06.hearsay.armed")
+	if t == nil {
+		return
+	}
+	q0 := m.broadcasts.NumQueued()
+	rem0 := vTimerRemaining(t.timer)
+	// push/pull entries about the suspect, in either non-alive state, at any incarnation
+	inc := vU32()
+	st := []NodeStateType{StateSuspect, StateDead}[vPick(2)]
+	m.mergeState([]pushNodeState{{Name: vPeerA, Addr: a.Addr, Port: a.Port, Incarnation: inc, State: st}})
+	vAssert(t.n.Load() == 0, "c06.hearsay.not-a-confirmation")
+	vAssert(m.nodeTimers[vPeerA] == t, "c06.hearsay.same-suspicion")
+	if vSymbolic() {
+		vAssert(vTimerRemaining(t.timer) == rem0, "c06.hearsay.deadline-unchanged")
+	}
+	vAssert(a.State == StateSuspect, "c06.hearsay.still-suspect")
+	// a real third party does count, once
+	m.suspectNode(&suspect{Incarnation: a.Incarnation, Node: vPeerA, From: vPeerB})
+	vAssert(t.n.Load() == 1, "c06.hearsay.peer-confirms")
+	m.suspectNode(&suspect{Incarnation: a.Incarnation, Node: vPeerA, From: vPeerB})
+	vAssert(t.n.Load() == 1, "c06.hearsay.peer-confirms-once")
+	_ = q0
+	vCover("c06.hearsay")
 }
